@@ -43,6 +43,7 @@ import M4riProofs.GenTieGlue
 import M4riProofs.GenTieClose2
 import M4riProofs.GenTieClose4
 import M4riProofs.GenTieTop
+import M4riProofs.GenTieTriFinal
 namespace M4ri.Props.C03
 open M4ri M4ri.BMat
 
@@ -203,3 +204,8 @@ end M4ri.Props.C03
 #check @M4ri.GenTieTop.pluqFromPle_congr
 #check @M4ri.GenTieTop.pleTop_eq_pleM
 #check @M4ri.GenTieTop.pluqTop_eq_pluqM
+
+/-! ### `mzd_apply_p_right_trans_tri` ON THE C TEXT (GenTieTriFinal.lean): the function parameter `liftTri` by which `_mzd_pluq` is tied is what the
+    generated function (over the generated `mzd_col_swap_in_rows`) computes on a whole well-formed matrix -/
+#check @M4ri.GenTieTriFinal.mzdApplyPRightTransTri_eq
+#check @M4ri.GenTieTriFinal.mzdApplyPRightTransTri_liftTri
